@@ -283,6 +283,12 @@ theorem Safe.run_ne_crash {p : Par α} (hp : Safe p) (data : Bytes) : p.run data
   | err k => simp
   | crash => rw [h] at this; exact this.elim
 
+/-- a parser that decodes a prefix ignores whatever follows it -/
+theorem Decodes.run_append {p : Par α} {e : Bytes} {x : α} (h : Decodes p e x) (post : Bytes) :
+    p.run (e ++ post) = .ok x := by
+  obtain ⟨b', hp, _, _⟩ := h (Buf.new (e ++ post)) post (by simp)
+  simp [Par.run, hp]
+
 /-! ### the length-prefixed string reader -/
 
 /-- one length byte, then that many bytes of valid UTF-8 without NUL -/
